@@ -387,7 +387,7 @@ def judge_interrupted(res, run, desc, entry):
 
 
 def run(ctx):
-    n = int(os.environ.get('C04_N', 0)) or (18 if ctx.tier == 'quick' else 320)
+    n = int(os.environ.get('C04_N', 0)) or (18 if ctx.tier == 'quick' else 1000)
     shards = [{'shard': i, 'n': n} for i in range(common.NCPU)]
     results = common.run_shards('checks.c04', shards, timeout=3400)
     common.merge_shards(ctx, results)
